@@ -30,7 +30,7 @@ func VH_C15_AssignedLoopRunsCallbacks() {
 	lb.register(el2)
 	w.eng.eventLoops = lb
 	if policy == 0 {
-		lb.(*roundRobinLoadBalancer).nextIndex = vNondetUint64("nextIndex")
+		vSetCursorA(&lb.(*roundRobinLoadBalancer).nextIndex, vNondetUint64("nextIndex"))
 	}
 	if policy == 1 {
 		c1 := vNondetInt32("count0")
@@ -72,4 +72,10 @@ func VH_C15_AssignedLoopRunsCallbacks() {
 		vAssert("C15.assign.least_connections_target", target.connections.loadCount()-1 <= other.connections.loadCount())
 	}
 	vReach("C15.assign.end")
+}
+
+// vSetCursorA: the cursor state after `accepts` calls of next() (see vSetCursor in c15_lb.go); generic so that the
+// harness builds whatever integer type the cursor has.
+func vSetCursorA[T uint8 | uint16 | uint32 | uint64 | uint | int32 | int64 | int](p *T, accepts uint64) {
+	*p = T(accepts)
 }
